@@ -69,6 +69,49 @@ def legacyLoop : Nat → List Nat → Bool
 
 def legacyMet (bs : List Nat) : Bool := legacyLoop (bs.length + 1) bs
 
+/-! ### the reference AS BUILT: the same rules with the one rule the code implements differently
+
+`referenceAsBuilt` is `reference` with rule 4 replaced by what /repo/decoder does (finding KF-C04-1, design review F06):
+
+4'. the file CRC equals the CRC-16 of the RECORD bytes only — the running checksum restarts after the header.
+
+Rules 1, 2, 3 and 5 are unchanged (in particular rule 3: a header CRC field of 0x0000 is "not computed" and is not
+checked, in the reference and in the code alike). For a 14-byte header whose CRC field holds the computed value the
+two rules say the same thing (a header followed by its own CRC leaves the CRC register at 0), so the two references can
+differ only on streams that contain a 12-byte header or a 14-byte header with CRC field 0 — and differ there only
+when the two checksums of that sequence differ. `C04_check_eq_reference_as_built` proves that the model of
+`CheckIntegrity` IS `referenceAsBuilt` on every byte string; the class of KF-C04-1 is `reference bs ≠ referenceAsBuilt bs`. -/
+
+/-- rules 1–3 and 4' for the sequence at the front of `bs`; gives its total length -/
+def seqValidAsBuilt (bs : List Nat) : Option Nat :=
+  match parseHeader bs with
+  | none => none
+  | some h =>
+    if h.dataSize = 0 then none
+    else if headerCrcBad bs h.crc then none
+    else
+      let n := h.size + h.dataSize
+      match bs.drop n with
+      | c0 :: c1 :: _ => if le16 c0 c1 = crcSpec 0 ((bs.drop h.size).take h.dataSize) then some (n + 2) else none
+      | _ => none
+
+/-- the walk of `refLoop` with `seqValidAsBuilt` -/
+def refLoopAsBuilt : Nat → Nat → List Nat → Verdict
+  | 0, seq, _ => .bad seq
+  | fuel + 1, seq, bs =>
+    if bs.isEmpty then (if seq ≠ 0 then .ok seq else .bad seq)
+    else
+      match seqValidAsBuilt bs with
+      | none => .bad seq
+      | some n => refLoopAsBuilt fuel (seq + 1) (bs.drop n)
+
+/-- THE REFERENCE AS BUILT: verdict and count of valid leading sequences under the code's checksum rule -/
+def referenceAsBuilt (bs : List Nat) : Verdict := refLoopAsBuilt (bs.length + 1) 0 bs
+
+/-- the EXACT class of finding KF-C04-1: the byte strings on which the integrity rules and the rules as built
+give different verdicts or counts -/
+def kfC04 (bs : List Nat) : Bool := decide (reference bs ≠ referenceAsBuilt bs)
+
 /-- "ENCODER OUTPUT" as a predicate on bytes, stated with the independent framing reader: the stream consists of
 bytes and is one well-formed sequence with a 14-byte header that carries its computed CRC, and a correct file CRC. -/
 def IsEncoderOutput14 (f : List Nat) : Prop :=
@@ -88,5 +131,35 @@ instance (f : List Nat) : Decidable (IsEncoderOutput14 f) := by
     | some [] => isFalse (by rintro ⟨s', hs', _⟩; cases hs')
     | some (_ :: _ :: _) => isFalse (by rintro ⟨s', hs', _⟩; cases hs')
   infer_instance
+
+/-- executable form of "the output of the encoder for a chain of `n` sequences, all with 14-byte headers": bytes; exactly
+`n` well-formed sequences under the independent framing reader with nothing between or after them; every header has 14
+bytes and carries its computed CRC; every file CRC is correct over its whole sequence. For `n = 1` this is
+`IsEncoderOutput14` (`isEncoderChain14_one`). Evaluated by the driver on the operations the harness TAGS as real encoder output. -/
+def isEncoderChain14 (f : List Nat) (n : Nat) : Bool :=
+  f.all (fun b => decide (b < 256)) &&
+  match parseStream f with
+  | some seqs => seqs.length == n && seqs.all fun s => s.header.size == 14 && headerCrcStrict f s && fileCrcOk f s
+  | none => false
+
+theorem isEncoderChain14_one (f : List Nat) : isEncoderChain14 f 1 = true ↔ IsEncoderOutput14 f := by
+  unfold isEncoderChain14 IsEncoderOutput14
+  simp only [Bool.and_eq_true, List.all_eq_true, decide_eq_true_eq]
+  constructor
+  · rintro ⟨hb, h⟩
+    refine ⟨hb, ?_⟩
+    cases hp : parseStream f with
+    | none => rw [hp] at h; cases h
+    | some seqs =>
+      rw [hp] at h
+      simp only [Bool.and_eq_true, beq_iff_eq, List.all_eq_true] at h
+      match seqs, h with
+      | [s], ⟨_, hall⟩ =>
+        have := hall s (by simp)
+        exact ⟨s, rfl, this.1.1, this.1.2, this.2⟩
+  · rintro ⟨hb, s, hp, h14, hc, hfc⟩
+    refine ⟨hb, ?_⟩
+    rw [hp]
+    simp [h14, hc, hfc]
 
 end Fit.IntegritySpec
